@@ -37,7 +37,8 @@ class Spy(SimAlgo):
     def __call__(self, target):
         sim = self.sim
         sp = self.spec
-        t = sim.tindex(target.now)
+        # (a strategy created in the middle of a run has not been updated yet: its own clock still reads 0)
+        t = sim.tindex(target.now if not (isinstance(target.now, int) and target.now == 0) else target.root.now)
         ret = sp.get("ret")
         r = True if ret is None else bool(ret[t % len(ret)])
         sim.spy_log.append((sp["id"], target.full_name, t, self.live(target), r, sim.seq))
@@ -147,6 +148,27 @@ class PermGate(SimAlgo):
         return n <= self.spec["limit"]
 
 
+class Spawn(SimAlgo):
+    """a parent algo that grows the tree while it runs (the pattern of the library's pairs-trading example): on one date it
+    creates a sub-strategy under its target with parent= and setup_from_parent(); that child exists when the parent's stack
+    ends, so the same run must run it"""
+
+    def __call__(self, target):
+        sim = self.sim
+        if not self.live(target) or sim.tindex(target.now) != self.spec["t"]:
+            return True
+        bt = sim.bt
+        child = bt.core.Strategy(self.spec["name"], algos=[build(bt, x, sim) for x in self.spec["stack"]], parent=target)
+        if self.spec.get("own_bidoffer"):
+            # the new sub-strategy is set up with data of its own, overriding what its parent was given (documented use of
+            # setup_from_parent's keyword arguments) - its own, not its parent's from now on
+            child.setup_from_parent(bidoffer=target.get_data("bidoffer") * float(self.spec["own_bidoffer"]))
+        else:
+            child.setup_from_parent()
+        sim.fire("child_strategy_created_mid_run")
+        return True
+
+
 class Wrap(SimAlgo):
     """oracle wrapper: snapshots inputs, calls the wrapped stock algo, hands both to a monitor"""
 
@@ -190,6 +212,8 @@ def build(bt, spec, sim):
         return SetTemp(sim, spec)
     if a == "PermGate":
         return PermGate(sim, spec)
+    if a == "Spawn":
+        return Spawn(sim, spec)
     if a == "Probe":
         return Probe(sim, spec, build(bt, spec["inner"], sim))
     if a == "Wrap":
